@@ -1,6 +1,7 @@
 import FinamModel.Props.C15
 import FinamModel.Translated.StructuredGrid_compatible_with
 import FinamModel.Translated.StructuredGrid___eq__
+import FinamModel.Translated.StructuredGrid_get_transform_to
 /-!
   C15, "two grids are reported compatible exactly when they describe the same set of data locations" — on the
   *translated* `StructuredGrid.compatible_with` and `StructuredGrid.__eq__` (`data/grid_base.py`, regenerated on every
@@ -110,6 +111,43 @@ theorem code_eq_implies_compatible (g h : SGrid) (he : codeEq g h = .ok true) : 
   cases hcw : g.compatibleWith h with
   | false => simp [hcw] at this
   | true => rfl
+
+/-- `get_transform_to` of the code: the translated decision on what the translated `compatible_with` and `==` answer -/
+def codeTransform (g h : SGrid) : Except Err (Option Int) :=
+  match codeCompat g h true with
+  | .error e => .error e
+  | .ok c => match codeEq g h with
+    | .error e => .error e
+    | .ok e => Tr.StructuredGrid_get_transform_to c e
+
+/-- **`get_transform_to`** = the model's `getTransformTo`: incompatible grids raise, equal layouts get the pass-through
+    (`None`), compatible but different layouts the conversion -/
+theorem tr_StructuredGrid_get_transform_to (g h : SGrid) :
+    codeTransform g h = (match g.getTransformTo h with
+      | .error e => .error e
+      | .ok .passThrough => .ok none
+      | .ok .convert => .ok (some 1)) := by
+  unfold codeTransform getTransformTo Tr.StructuredGrid_get_transform_to
+  rw [tr_StructuredGrid_compatible_with, tr_StructuredGrid___eq__]
+  cases hc : g.compatibleWith h <;> cases he : g.eqGrid h <;>
+    simp [pure, Except.pure, throw, throwThe, MonadExceptOf.throw]
+
+/-- **C15 on the code — equal layouts are passed through unchanged**: the input gets no transform exactly when the two
+    grids are equal (compatible, same axis directions, same axes order); it gets the conversion exactly when they are
+    compatible and differ in layout; otherwise `get_transform_to` raises -/
+theorem code_transform_decision (g h : SGrid) :
+    (codeTransform g h = .ok none ↔ g.eqGrid h = true) ∧
+    (codeTransform g h = .ok (some 1) ↔ g.compatibleWith h = true ∧ g.eqGrid h = false) ∧
+    (codeTransform g h = .error .other ↔ g.compatibleWith h = false) := by
+  rw [tr_StructuredGrid_get_transform_to]
+  unfold getTransformTo
+  have hec : g.eqGrid h = true → g.compatibleWith h = true := by
+    intro he; unfold eqGrid at he
+    cases hcw : g.compatibleWith h with
+    | false => simp [hcw] at he
+    | true => rfl
+  cases hc : g.compatibleWith h <;> cases he : g.eqGrid h <;> simp
+  exact absurd (hec he) (by simp [hc])
 
 /-! ### non-vacuity: the same 2×3 point grid with the axes order reversed and one axis decreasing -/
 
